@@ -40,6 +40,25 @@ def c11mr : Machine where
   minit := {}
   mstep := fun m line out => m.stepFull line out
 
-def machines : List (String × Machine) := [("c11pure", c11pure), ("c11route", c11route), ("c11mr", c11mr)]
+/-- Multiplexer, wake-time polls (monitor only): a woken task must find what it was woken for. -/
+def c11mrw : Machine where
+  σ := Unit
+  init := ()
+  step := fun s _ => (s, "unmodelled")
+  μ := MultiReader.Mon
+  minit := {}
+  mstep := fun m line out => m.stepWake line out
+
+/-- Multiplexer under real threads (monitor only). -/
+def c11mrs : Machine where
+  σ := Unit
+  init := ()
+  step := fun s _ => (s, "unmodelled")
+  μ := Unit
+  minit := ()
+  mstep := fun m _ out => (m, MultiReader.stressVerdict out)
+
+def machines : List (String × Machine) :=
+  [("c11pure", c11pure), ("c11route", c11route), ("c11mr", c11mr), ("c11mrw", c11mrw), ("c11mrs", c11mrs)]
 
 end SwimVerif.Machines.C11
